@@ -8,41 +8,60 @@ use std::time::Duration;
 
 // ---- scalars: every bit symbolic, no bound
 suite!(t_u8, 0, 0, 4, [enc dec delim trunc sinks], u8); //@ group=b tier=quick
-suite!(t_i8, 0, 0, 4, [enc dec delim trunc sinks], i8); //@ group=b tier=thorough
-suite!(t_u16, 0, 0, 4, [enc dec delim trunc sinks], u16); //@ group=b tier=thorough
-suite!(t_i16, 0, 0, 4, [enc dec delim trunc sinks], i16); //@ group=b tier=thorough
-suite!(t_u32, 0, 0, 4, [enc dec delim trunc sinks], u32); //@ group=b tier=thorough
+suite!(t_i8, 0, 0, 4, [enc dec delim trunc], i8); //@ group=b tier=thorough
+suite!(t_i8_s, 0, 0, 4, [sinks], i8); //@ group=b tier=thorough
+suite!(t_u16, 0, 0, 4, [enc dec delim trunc], u16); //@ group=b tier=thorough
+suite!(t_u16_s, 0, 0, 4, [sinks], u16); //@ group=b tier=thorough
+suite!(t_i16, 0, 0, 4, [enc dec delim trunc], i16); //@ group=b tier=thorough
+suite!(t_i16_s, 0, 0, 4, [sinks], i16); //@ group=b tier=thorough
+suite!(t_u32, 0, 0, 4, [enc dec delim trunc], u32); //@ group=b tier=thorough
+suite!(t_u32_s, 0, 0, 4, [sinks], u32); //@ group=b tier=thorough
 suite!(t_i32, 0, 0, 4, [enc dec delim trunc sinks], i32); //@ group=b tier=quick
-suite!(t_u64, 0, 0, 4, [enc dec delim trunc sinks], u64); //@ group=b tier=thorough
-suite!(t_i64, 0, 0, 4, [enc dec delim trunc sinks], i64); //@ group=b tier=thorough
-suite!(t_u128, 0, 0, 4, [enc dec delim trunc sinks], u128); //@ group=b tier=thorough
-suite!(t_i128, 0, 0, 4, [enc dec delim trunc sinks], i128); //@ group=b tier=thorough
-suite!(t_f32, 0, 0, 4, [enc dec delim trunc sinks], f32); //@ group=b tier=thorough
-suite!(t_f64, 0, 0, 4, [enc dec delim trunc sinks], f64); //@ group=b tier=quick
-suite!(t_bool, 0, 0, 4, [enc dec delim trunc sinks], bool); //@ group=b tier=quick
-suite!(t_unit, 0, 0, 4, [enc dec delim sinks], ()); //@ group=b tier=thorough
-suite!(t_char, 0, 0, 4, [enc dec delim trunc sinks], char); //@ group=b tier=quick
-suite!(t_duration, 0, 0, 4, [enc dec delim trunc sinks], Duration); //@ group=b tier=quick
+suite!(t_u64, 0, 0, 4, [enc dec delim trunc], u64); //@ group=b tier=thorough
+suite!(t_u64_s, 0, 0, 4, [sinks], u64); //@ group=b tier=thorough
+suite!(t_i64, 0, 0, 4, [enc dec delim trunc], i64); //@ group=b tier=thorough
+suite!(t_i64_s, 0, 0, 4, [sinks], i64); //@ group=b tier=thorough
+suite!(t_u128, 0, 0, 4, [enc dec delim trunc], u128); //@ group=b tier=thorough
+suite!(t_u128_s, 0, 0, 4, [sinks], u128); //@ group=b tier=thorough
+suite!(t_i128, 0, 0, 4, [enc dec delim trunc], i128); //@ group=b tier=thorough
+suite!(t_i128_s, 0, 0, 4, [sinks], i128); //@ group=b tier=thorough
+suite!(t_f32, 0, 0, 4, [enc dec delim trunc], f32); //@ group=b tier=thorough
+suite!(t_f32_s, 0, 0, 4, [sinks], f32); //@ group=b tier=thorough
+suite!(t_f64, 0, 0, 4, [enc dec delim trunc], f64); //@ group=b tier=quick
+suite!(t_f64_s, 0, 0, 4, [sinks], f64); //@ group=b tier=thorough
+suite!(t_bool, 0, 0, 4, [enc dec delim trunc], bool); //@ group=b tier=quick
+suite!(t_bool_s, 0, 0, 4, [sinks], bool); //@ group=b tier=thorough
+suite!(t_unit, 0, 0, 4, [enc dec delim], ()); //@ group=b tier=thorough
+suite!(t_unit_s, 0, 0, 4, [sinks], ()); //@ group=b tier=thorough
+suite!(t_char, 0, 0, 4, [enc dec delim trunc], char); //@ group=b tier=quick
+suite!(t_char_s, 0, 0, 4, [sinks], char); //@ group=b tier=thorough
+suite!(t_duration, 0, 0, 4, [enc dec delim trunc], Duration); //@ group=b tier=quick
+suite!(t_duration_s, 0, 0, 4, [sinks], Duration); //@ group=b tier=thorough
 
 // ---- strings and byte containers
 suite!(t_string1, 0, 1, 8, [enc dec delim trunc sinks], String); //@ group=b tier=quick
 suite!(t_string2, 0, 2, 10, [enc dec delim trunc], String); //@ group=b tier=thorough
-suite!(t_vecu8, 3, 0, 8, [enc dec delim trunc sinks], Vec<u8>); //@ group=b tier=quick
-suite!(t_bytes, 3, 0, 8, [enc dec delim trunc sinks], bytes::Bytes); //@ group=b tier=thorough
+suite!(t_vecu8, 3, 0, 8, [enc dec delim trunc], Vec<u8>); //@ group=b tier=quick
+suite!(t_vecu8_s, 3, 0, 8, [sinks], Vec<u8>); //@ group=b tier=thorough
+suite!(t_bytes, 3, 0, 8, [enc dec delim trunc], bytes::Bytes); //@ group=b tier=thorough
+suite!(t_bytes_s, 3, 0, 8, [sinks], bytes::Bytes); //@ group=b tier=thorough
 suite!(t_arru8_0, 0, 0, 6, [enc dec delim trunc], [u8; 0]); //@ group=b tier=thorough
-suite!(t_arru8_2, 0, 0, 6, [enc dec delim trunc sinks], [u8; 2]); //@ group=b tier=quick
+suite!(t_arru8_2, 0, 0, 6, [enc dec delim trunc], [u8; 2]); //@ group=b tier=quick
+suite!(t_arru8_2_s, 0, 0, 6, [sinks], [u8; 2]); //@ group=b tier=thorough
 suite!(t_arru8_17, 0, 0, 20, [enc dec delim trunc], [u8; 17]); //@ group=b tier=quick
 
 // ---- options, results, smart pointers
 suite!(t_opt_u16, 0, 0, 4, [enc dec delim trunc sinks], Option<u16>); //@ group=b tier=quick
 suite!(t_opt_opt_u8, 0, 0, 4, [enc dec delim trunc], Option<Option<u8>>); //@ group=b tier=thorough
-suite!(t_res_u8_u16, 0, 0, 4, [enc dec delim trunc sinks], Result<u8, u16>); //@ group=b tier=quick
+suite!(t_res_u8_u16, 0, 0, 4, [enc dec delim trunc], Result<u8, u16>); //@ group=b tier=quick
+suite!(t_res_u8_u16_s, 0, 0, 4, [sinks], Result<u8, u16>); //@ group=b tier=thorough
 suite!(t_box_u16, 0, 0, 4, [enc dec delim trunc], Box<u16>); //@ group=b tier=thorough
 suite!(t_rc_pair, 0, 0, 4, [enc dec delim trunc], Rc<(u8, u8)>); //@ group=b tier=thorough
 suite!(t_arc_u32, 0, 0, 4, [enc dec delim trunc], Arc<u32>); //@ group=b tier=thorough
 
 // ---- tuples of every arity
-suite!(t_tuple1, 0, 0, 4, [enc dec delim trunc sinks], (u16,)); //@ group=b tier=quick
+suite!(t_tuple1, 0, 0, 4, [enc dec delim trunc], (u16,)); //@ group=b tier=quick
+suite!(t_tuple1_s, 0, 0, 4, [sinks], (u16,)); //@ group=b tier=thorough
 suite!(t_tuple2, 0, 0, 4, [enc dec delim trunc sinks], (u8, u16)); //@ group=b tier=quick
 suite!(t_tuple3, 0, 0, 4, [enc dec delim trunc], (u8, bool, i32)); //@ group=b tier=thorough
 suite!(t_tuple4, 0, 0, 4, [enc dec delim trunc], (u8, u8, u8, u8)); //@ group=b tier=thorough
@@ -54,11 +73,13 @@ suite!(t_tuple8, 0, 0, 4, [enc dec delim trunc], (u8, u16, u8, u8, bool, u8, u8,
 // ---- sequences (element count <= maxv, every count enumerated)
 suite!(t_vec_u16, 2, 0, 6, [enc dec delim trunc sinks], Vec<u16>); //@ group=b tier=quick
 suite!(t_vec_u16_3, 3, 0, 6, [enc dec delim trunc], Vec<u16>); //@ group=b tier=thorough
-suite!(t_list_u16, 2, 0, 6, [enc dec delim trunc sinks], LinkedList<u16>); //@ group=b tier=thorough
+suite!(t_list_u16, 2, 0, 6, [enc dec delim trunc], LinkedList<u16>); //@ group=b tier=thorough
+suite!(t_list_u16_s, 2, 0, 6, [sinks], LinkedList<u16>); //@ group=b tier=thorough
 suite!(t_list_u8, 2, 0, 6, [enc dec delim trunc], LinkedList<u8>); //@ group=b tier=thorough
 suite!(t_arr_u16_0, 0, 0, 6, [enc dec delim trunc], [u16; 0]); //@ group=b tier=thorough
 suite!(t_arr_u16_1, 0, 0, 6, [enc dec delim trunc], [u16; 1]); //@ group=b tier=thorough
-suite!(t_arr_u16_3, 0, 0, 6, [enc dec delim trunc sinks], [u16; 3]); //@ group=b tier=quick
+suite!(t_arr_u16_3, 0, 0, 6, [enc dec delim trunc], [u16; 3]); //@ group=b tier=quick
+suite!(t_arr_u16_3_s, 0, 0, 6, [sinks], [u16; 3]); //@ group=b tier=thorough
 
 // ---- nesting: every constructor appears at least once in a non-top position
 suite!(t_opt_vec_pair, 2, 0, 6, [enc dec delim trunc], Option<Vec<(u8, u16)>>); //@ group=b tier=thorough
